@@ -177,7 +177,8 @@ def run_property(prop, tier="quick", seed=0, out=sys.stdout):
                         # private functions that the reference table does not know were inlined into their callers before the rules ran
                         "helpers_inlined_into_callers": sorted(set("%s <- %s" % (c_, h_) for c_, h_ in facts.spliced)),
                         # locals of a struct type the reference table does not know, taken apart into one local per field
-                        "struct_locals_split_into_fields": sorted(set("%s: %s (%s)" % t_ for t_ in facts.split_locals))}
+                        "struct_locals_split_into_fields": sorted(set("%s: %s (%s)" % t_ for t_ in facts.split_locals)),
+                        "loops_over_array_literals_unrolled": sorted(set("%s: %d elements" % t_ for t_ in facts.unrolled))}
         ctx = Ctx(facts, cfg)
         for r in rules:
             if r.configs is not None and cfg not in r.configs:
